@@ -11,6 +11,7 @@ oracle: a real directory tree with secrets beside/above the roots; an audit hook
 from __future__ import annotations
 
 import itertools
+import zlib
 import os
 import posixpath
 import shutil
@@ -107,8 +108,9 @@ class Probe:
             self.L.os.path.isfile = orig
         return seen
 
-    def check_and_modpath(self, moddir, uri):
-        """(accepted?, module path) of Template.__init__ for (uri, module_directory)"""
+    def check_and_modpath(self, moddir, uri, module_filename=None):
+        """(accepted?, module path) of Template.__init__ for (uri, module_directory) – or, with module_filename
+        (what a lookup built with modulename_callable passes), for (uri, module_filename)"""
         T = self.T
         rec = []
         orig = T.Template._compile_from_file
@@ -122,7 +124,10 @@ class Probe:
         T.Template._compile_from_file = fake
         try:
             try:
-                T.Template(filename="/nonexistent/src.html", uri=uri, module_directory=moddir)
+                if module_filename is not None:
+                    T.Template(filename="/nonexistent/src.html", uri=uri, module_filename=module_filename)
+                else:
+                    T.Template(filename="/nonexistent/src.html", uri=uri, module_directory=moddir)
             except self.X.TemplateLookupException:
                 return False, None
         finally:
@@ -218,6 +223,18 @@ def corr(ctx):
                 want = posixpath.normpath(posixpath.join(cwd, dec(mp)))   # os.path.abspath
                 if path != want:
                     ctx.disagree("corr.template_check_modpath", {"input": u, "moddir": m, "what": "modpath"}, want, path)
+    # the same check when the module path is given outright (module_filename; a lookup with modulename_callable
+    # constructs its templates this way): the model's templateCheck does not depend on how the module path is chosen
+    o1 = drv.ask_many(["path check " + enc(u) for u in sub])
+    for u, c in zip(sub, o1):
+        st["cases"] += 1
+        ok, path = probe.check_and_modpath(None, u, module_filename="/var/mods/given.py")
+        if (c == "1") != ok:
+            ctx.disagree("corr.template_check_modpath", {"input": u, "what": "check", "module_filename": True}, c, ok)
+        elif ok and path != "/var/mods/given.py":
+            ctx.disagree("corr.template_check_modpath", {"input": u, "what": "modpath", "module_filename": True},
+                         "/var/mods/given.py", path)
+        ctx.branch("check:module_filename:" + ("accepted" if ok else "rejected"))
     ctx.branch("check:accepted", accepted)
     ctx.branch("check:rejected", rejected)
 
@@ -342,6 +359,75 @@ def detour_uri(rng):
     return rng.choice(["", "/", "\\", "//"]) + body
 
 
+def _inside(p, tops):
+    rp = os.path.realpath(p)
+    return any(rp.startswith(os.path.realpath(t) + os.sep) for t in tops)
+
+def _check_case(base, dirs, md, how, uri):
+    """returns None if fine, else a description; `md` is None, a directory, or ("callable", dir)"""
+    from mako.lookup import TemplateLookup
+    from mako.template import Template
+    from mako import exceptions as X
+    if not _hook_installed[0]:
+        sys.addaudithook(_audit)
+        _hook_installed[0] = True
+    roots = [os.path.join(base, "root"), os.path.join(base, "root2")]
+    mods = os.path.join(base, "mods")
+    allowed_read = [r + os.sep for r in roots] + [mods + os.sep]
+    if isinstance(md, tuple):
+        def namer(filename, uri, _m=md[1]):
+            return os.path.join(_m, "cb", "%08x.py" % (zlib.crc32(filename.encode()) & 0xffffffff))
+        lk = TemplateLookup(directories=dirs, modulename_callable=namer)
+        md = md[1]
+    else:
+        lk = TemplateLookup(directories=dirs, module_directory=md)
+    _opened.clear()
+    _hook_on[0] = True
+    out = None
+    t = None
+    has_said_yes = False
+    try:
+        try:
+            if how == "get":
+                t = lk.get_template(uri)
+                out = t.render()
+            elif how == "has":
+                if lk.has_template(uri):
+                    has_said_yes = True
+                    t = lk.get_template(uri)
+            elif how == "template":
+                # direct construction with a uri: the file name is the attacker-resolved path
+                fn = posixpath.normpath(posixpath.join(dirs[0], uri.replace("\\", "/").lstrip("/")))
+                if os.path.isfile(fn):
+                    t = Template(filename=fn, uri=uri, module_directory=md, lookup=lk)
+                    # such a template is inside a root iff the uri check passed *and* fn is inside: check below
+            else:
+                caller = lk.get_template(how)
+                out = caller.render(target=uri)
+        except (X.TemplateLookupException,):
+            pass
+        except (X.CompileException, X.SyntaxException, IndexError, TypeError, AttributeError, ValueError, OSError, RecursionError):
+            # unrelated failures of odd URIs (e.g. '' -> IndexError in adjust_uri, NUL in path):
+            # not a containment matter; outputs are still checked below
+            pass
+    finally:
+        _hook_on[0] = False
+    if out is not None and SECRET in out:
+        return "secret content reached the output"
+    if has_said_yes and t is None:
+        return "has_template answered True for a URI that get_template refuses"
+    if t is not None and how != "template" and t.filename is not None and not _inside(t.filename, roots):
+        return "template file %s outside the roots" % t.filename
+    if how == "template" and t is not None and not _inside(t.filename, roots):
+        return "Template(uri=%r) accepted a file outside the roots: %s" % (uri, t.filename)
+    for p in _opened:
+        ap = os.path.realpath(os.path.abspath(p))
+        if ap.startswith(base + os.sep) and not any(ap.startswith(a) for a in allowed_read):
+            return "opened %s (outside roots)" % ap
+    return None
+
+
+
 def oracle(ctx):
     from mako.lookup import TemplateLookup
     from mako.template import Template
@@ -359,6 +445,9 @@ def oracle(ctx):
         for dirs in ([roots[0]], roots, [roots[0] + "/"], [base + "/root/./sub/.."], [roots[0] + "//", roots[1]]):
             for md in (None, mods):
                 configs.append((dirs, md))
+        # lookups that choose the module path themselves (modulename_callable -> Template(module_filename=...))
+        configs.append(([roots[0]], ("callable", mods)))
+        configs.append((roots, ("callable", mods)))
         n = 1500 if ctx.quick else 40000
         uris = [attack_uri(ctx.rng, base) for _ in range(n)]
         uris += [detour_uri(ctx.rng) for _ in range(n // 2)]
@@ -371,53 +460,8 @@ def oracle(ctx):
         st = ctx.stream("oracle.tree", "oracle")
         allowed_read = [r + os.sep for r in roots] + [mods + os.sep]
 
-        def inside(p, tops):
-            rp = os.path.realpath(p)
-            return any(rp.startswith(os.path.realpath(t) + os.sep) for t in tops)
-
-        def check_case(dirs, md, how, uri):
-            """returns None if fine, else a description"""
-            lk = TemplateLookup(directories=dirs, module_directory=md)
-            _opened.clear()
-            _hook_on[0] = True
-            out = None
-            t = None
-            try:
-                try:
-                    if how == "get":
-                        t = lk.get_template(uri)
-                        out = t.render()
-                    elif how == "has":
-                        if lk.has_template(uri):
-                            t = lk.get_template(uri)
-                    elif how == "template":
-                        # direct construction with a uri: the file name is the attacker-resolved path
-                        fn = posixpath.normpath(posixpath.join(dirs[0], uri.replace("\\", "/").lstrip("/")))
-                        if os.path.isfile(fn):
-                            t = Template(filename=fn, uri=uri, module_directory=md, lookup=lk)
-                            # such a template is inside a root iff the uri check passed *and* fn is inside: check below
-                    else:
-                        caller = lk.get_template(how)
-                        out = caller.render(target=uri)
-                except (X.TemplateLookupException,):
-                    pass
-                except (X.CompileException, X.SyntaxException, IndexError, TypeError, AttributeError, ValueError, OSError, RecursionError):
-                    # unrelated failures of odd URIs (e.g. '' -> IndexError in adjust_uri, NUL in path):
-                    # not a containment matter; outputs are still checked below
-                    pass
-            finally:
-                _hook_on[0] = False
-            if out is not None and SECRET in out:
-                return "secret content reached the output"
-            if t is not None and how != "template" and t.filename is not None and not inside(t.filename, roots):
-                return "template file %s outside the roots" % t.filename
-            if how == "template" and t is not None and not inside(t.filename, roots):
-                return "Template(uri=%r) accepted a file outside the roots: %s" % (uri, t.filename)
-            for p in _opened:
-                ap = os.path.realpath(os.path.abspath(p))
-                if ap.startswith(base + os.sep) and not any(ap.startswith(a) for a in allowed_read):
-                    return "opened %s (outside roots)" % ap
-            return None
+        inside = _inside
+        check_case = lambda dirs, md, how, uri: _check_case(base, dirs, md, how, uri)
 
         hows = ["get", "has", "template", "/call.html", "/sub/call.html", "/sub/deep/call.html", "/ns.html",
                 "/sub/deep/ns.html", "/inh.html", "/sub/inh.html", "/api.html", "/sub/deep/api.html"]
@@ -440,7 +484,8 @@ def oracle(ctx):
             if bad:
                 small = shrink_str(uri, lambda u: check_case(dirs, md, how, u) is not None, 300)
                 ctx.violation("lookup-escape", {"input": small, "dirs": [os.path.relpath(d, base) for d in dirs],
-                                                "module_directory": bool(md), "how": how}, bad, "oracle.tree")
+                                                "module_directory": bool(md), "how": how,
+                                                "modulename_callable": isinstance(md, tuple)}, bad, "oracle.tree")
                 if len(ctx.violations) > 5:
                     break
         # a module directory shared with a lookup over ANOTHER root (outside this lookup's directories): a module
@@ -506,19 +551,14 @@ def replay(ctx, data):
         try:
             build_tree(base)
             dirs = [os.path.join(base, d) for d in case["dirs"]]
-            lk = TemplateLookup(directories=dirs, module_directory=os.path.join(base, "mods") if case["module_directory"] else None)
-            try:
-                if case["how"] in ("get", "has", "template"):
-                    t = lk.get_template(case["input"])
-                    out = t.render()
-                    print("returned", t.filename, repr(out))
-                    return SECRET not in out and os.path.realpath(t.filename).startswith(tuple(os.path.realpath(d) + os.sep for d in dirs))
-                out = lk.get_template(case["how"]).render(target=case["input"])
-                print("rendered", repr(out))
-                return SECRET not in out
-            except Exception as e:
-                print("raised", type(e).__name__, e)
-                return True
+            mods = os.path.join(base, "mods")
+            md = ("callable", mods) if case.get("modulename_callable") else (mods if case["module_directory"] else None)
+            if case.get("shared_module_directory_with") or case.get("files"):
+                print("(scenario case: re-run the check to reproduce)")
+                return False
+            bad = _check_case(base, dirs, md, case["how"], case["input"])
+            print("implementation:", bad or "contained")
+            return bad is None
         finally:
             shutil.rmtree(base, ignore_errors=True)
     if isinstance(case, (str, dict)):
